@@ -115,8 +115,8 @@ CRATE_NAMES = {
     MS + 'KernelGsBase::MSR': 'MSR.IA32_KERNEL_GS_BASE', MS + 'Star::MSR': 'MSR.IA32_STAR', MS + 'LStar::MSR': 'MSR.IA32_LSTAR',
     MS + 'SFMask::MSR': 'MSR.IA32_FMASK', MS + 'UCet::MSR': 'MSR.IA32_U_CET', MS + 'SCet::MSR': 'MSR.IA32_S_CET',
     MS + 'Pat::MSR': 'MSR.IA32_PAT', MS + 'ApicBase::MSR': 'MSR.IA32_APIC_BASE',
-    'instructions::segmentation::<impl registers::segmentation::Segment64 for registers::segmentation::FS>::BASE': 'MSR.IA32_FS_BASE',
-    'instructions::segmentation::<impl registers::segmentation::Segment64 for registers::segmentation::GS>::BASE': 'MSR.IA32_GS_BASE',
+    '<registers::segmentation::FS as registers::segmentation::Segment64>::BASE': 'MSR.IA32_FS_BASE',
+    '<registers::segmentation::GS as registers::segmentation::Segment64>::BASE': 'MSR.IA32_GS_BASE',
     # EFER
     MS + 'EferFlags::SYSTEM_CALL_EXTENSIONS': 'EFER.SCE', MS + 'EferFlags::LONG_MODE_ENABLE': 'EFER.LME',
     MS + 'EferFlags::LONG_MODE_ACTIVE': 'EFER.LMA', MS + 'EferFlags::NO_EXECUTE_ENABLE': 'EFER.NXE',
@@ -223,3 +223,6 @@ PAT_DEFAULT = [6, 4, 7, 0, 6, 4, 7, 0]
 
 # breakpoint LEN encoding -> bytes
 BREAKPOINT_LEN_BYTES = {0: 1, 1: 2, 2: 8, 3: 4}
+
+# constants that are private to the crate: compared when the crate has them under this name (a cross-check of a helper), not required
+PRIVATE_NAMES = {'addr::ADDRESS_SPACE_SIZE', 'structures::paging::page_table::ENTRY_COUNT'}
